@@ -289,6 +289,12 @@ def prune(rc):
     rc.ob("virtual evidence validated and observed at state 0")
 
 
+
+@rule("C01.defuse", "anchored files: every parameter is read, no value is computed and dropped (generic def-use detectors, triaged hit list)", floor=2)
+def defuse(rc):
+    from . import shared as _sh
+    _sh.defuse_rule(rc, _sh.anchor_files("C01"))
+
 MUTANTS = [
     dict(kind="break", name="greedy-joint-unnormalised", file=EI, expect="C01.norm",
          old="                    return result.normalize(inplace=False)\n                else:\n                    return result\n            else:\n                result_dict = {}",
